@@ -272,4 +272,15 @@ CHECKS = {
             R("TestC20_Manager", 320, 8000, shards=16, timeout=dict(quick=600, thorough=3000)),
         ],
     ),
+    "C18": dict(
+        level="exploration",
+        rule=("generated workloads run with real goroutine concurrency under the Go race detector (-race, halt_on_error=0): 1-4 declarations (log/tx/trace, same event with different selections, filters) = 1-4 tasks on one source client, concurrency 2..8 with batch >= concurrency, the 1 ms background head poller running, "
+              "every task looping on Converge in its own goroutine while the chain grows and reorgs land (3-8 rounds of pre-generated growth / depth 1-3 reorgs), GOMAXPROCS drawn from {2,4,8,16}. ../check parses the detector's reports: two conflicting accesses whose top frames are both in shovel packages = violation (identified by that pair of functions); a harness frame on top = harness bug = inconclusive. "
+              "non-trivial = more than one task on the client or concurrency > 1 (always, by construction); distinct = distinct (configuration, rounds, GOMAXPROCS)."),
+        assumptions=["happens-before race detection only sees executed accesses: absence of a report is not absence of a race",
+                     "workloads are schedule-dependent; rapid cannot shrink or replay a race, the report itself is the reproduction"],
+        units=[
+            dict(test="TestC18_Races", kind="rapid", checks=dict(quick=240, thorough=6000), shards=16, race=True, timeout=dict(quick=900, thorough=3000)),
+        ],
+    ),
 }
